@@ -81,6 +81,17 @@ def run(check):
                       'having been true')
         dest = unparse(y.value)
         def conf(a, lab, b, dest=dest):
+          if isinstance(lab, tuple) and isinstance(lab[1], ast.Call) and isinstance(lab[1].func, ast.Attribute) and \
+             dotted(lab[1].func.value) == gd.params[0] and len(lab[1].args) == 1 and unparse(lab[1].args[0]) == dest:
+            # a predicate method of the router that is exactly `return <arg> in self.destinations`
+            pm = rr.methods.get(lab[1].func.attr)
+            if pm is not None and len(pm.params) == 2:
+              body = [x for x in pm.node.body if not (isinstance(x, ast.Expr) and isinstance(x.value, ast.Constant))]
+              if len(body) == 1 and isinstance(body[0], ast.Return) and isinstance(body[0].value, ast.Compare) and \
+                 len(body[0].value.ops) == 1 and isinstance(body[0].value.ops[0], ast.In) and \
+                 dotted(body[0].value.left) == pm.params[1] and dotted(body[0].value.comparators[0]) == '%s.destinations' % pm.params[0]:
+                return lab[0] == 'T'
+            return False
           if not (isinstance(lab, tuple) and isinstance(lab[1], ast.Compare) and len(lab[1].ops) == 1):
             return False
           t = lab[1]
@@ -100,6 +111,12 @@ def run(check):
   loops = [n for n in g.nodes if n.kind == 'loop' and isinstance(n.owner, ast.For) and isinstance(n.owner.iter, ast.Call) and
            isinstance(n.owner.iter.func, ast.Attribute) and n.owner.iter.func.attr == 'sections']
   rets = [n for n in walk_no_nested(lr.node, include_self=False) if isinstance(n, ast.Return) and isinstance(n.value, ast.Name)]
+  # return <pattern rules> + [<default rule>]
+  concat = [n for n in walk_no_nested(lr.node, include_self=False) if isinstance(n, ast.Return) and isinstance(n.value, ast.BinOp) and
+            isinstance(n.value.op, ast.Add) and isinstance(n.value.left, ast.Name) and isinstance(n.value.right, ast.List) and
+            len(n.value.right.elts) == 1 and isinstance(n.value.right.elts[0], ast.Name)]
+  if not rets and concat:
+    rets = [ast.copy_location(ast.Return(value=concat[0].value.left), concat[0])]
   if not loops or not rets:
     r_o.cannot_decide('loadRelayRules: section loop or returned list not recognised')
   else:
@@ -134,6 +151,17 @@ def run(check):
             isinstance(body[0].value, ast.Constant) and body[0].value.value is True
         return False
       return any(isinstance(v, ast.Call) and dotted(v.func) == 'RelayRule' and any(always_true(x) for x in ast.walk(v)) for v in vals)
+    if concat and not after:
+      # the default rule is placed behind the collected list by the return expression itself
+      fake = ast.copy_location(ast.Call(func=ast.Attribute(value=ast.Name(id=lst, ctx=ast.Load()), attr='append', ctx=ast.Load()),
+                                        args=[concat[0].value.right.elts[0]], keywords=[]), concat[0])
+      fake._parent = concat[0]
+      after = [fake]
+
+      def _nc(c, _g=g, _ret=concat[0]):
+        return _g.nodes_of(_ret)
+      g_node_containing = g.node_containing
+      g.node_containing = lambda c: (_nc(c) if c is fake else g_node_containing(c))
     if in_loop and after and all(is_default_var(c) for c in after):
       r_o.ok('pattern rules appended in section order, default rule after the loop', lr.loc(after[0]))
     else:
@@ -197,8 +225,13 @@ def run(check):
     rules_loop = [n for n in g.nodes if n.kind == 'loop' and isinstance(n.owner, ast.For) and
                   (dotted(n.owner.iter) or '').endswith('.rules')]
     # ... or a comprehension over the rules without a filter in front of the call
+    vn_ag = ValueNumbers(cx, ag)
+
+    def iter_is_rules(e, at):
+      t_ = vn_ag.term(e, at)
+      return (dotted(e) or '').endswith('.rules') or (isinstance(t_, tuple) and t_[0] == 'attr' and t_[-1] == 'rules')
     comp_all = [x for x in walk_no_nested(ag.node, include_self=False) if isinstance(x, (ast.ListComp, ast.SetComp, ast.GeneratorExp)) and
-                len(x.generators) == 1 and (dotted(x.generators[0].iter) or '').endswith('.rules') and not x.generators[0].ifs and
+                len(x.generators) == 1 and iter_is_rules(x.generators[0].iter, x) and not x.generators[0].ifs and
                 isinstance(x.elt, ast.Call) and isinstance(x.elt.func, ast.Attribute) and x.elt.func.attr == 'get_aggregate_metric' and
                 isinstance(x.generators[0].target, ast.Name) and dotted(x.elt.func.value) == x.generators[0].target.id]
     if comp_all and gam:
